@@ -82,6 +82,23 @@ SetObsOK(s, obs) ==
   /\ Range(obs.items) = s
   /\ \A i \in 1..Len(obs.finds) : obs.finds[i] = (IF (i - 1) \in s THEN 1 ELSE 0)
 
+(* ============================== string pool =================================================== *)
+(* XalanDOMStringPool: state = the distinct non-empty strings pooled so far, in the order of their first request.  get(s)      *)
+(* returns THE pooled string equal to s - the one handed out before if there is one, else a new one - identified here by its    *)
+(* position; the empty string is the shared constant, position 0, never counted.  find (the hash table's own lookup) answers     *)
+(* the position or -1.  References stay valid and unchanged until clear().                                                       *)
+PoolIdx(m, s) == IF \E k \in 1..Len(m) : m[k] = s THEN CHOOSE k \in 1..Len(m) : m[k] = s ELSE 0
+PoolApply(m, op) ==
+  CASE op.op \in {"get", "getz", "getn"} ->
+         IF op.src = <<>> THEN R(TRUE, m, 0)
+         ELSE IF PoolIdx(m, op.src) # 0 THEN R(TRUE, m, PoolIdx(m, op.src))
+         ELSE R(TRUE, Append(m, op.src), Len(m) + 1)
+    [] op.op = "find"  -> R(TRUE, m, IF op.src # <<>> /\ PoolIdx(m, op.src) # 0 THEN PoolIdx(m, op.src) ELSE -1)
+    [] op.op = "clear" -> R(TRUE, <<>>, 0)
+    [] OTHER           -> R(FALSE, m, 0)
+PoolGotOK(op, got) == IF op.op = "clear" THEN got = <<>> ELSE IF op.op = "find" /\ op.res = -1 THEN got = <<>> ELSE got = op.src
+PoolObsOK(m, obs) == obs.size = Len(m) /\ obs.table = Len(m) /\ obs.strings = m
+
 (* ============================== vector ======================================================== *)
 (* state: the sequence.  Positions are 0-based like the iterators' distance from begin().          *)
 VecDefault == 0
